@@ -165,6 +165,14 @@ func histVerdicts(ops []histOp) []string {
 		r := run.results[k]
 		return strings.HasPrefix(r, "H:") || r == "parseok" || r == "info"
 	}
+	panickedBefore := func(k int) bool {
+		for j := 0; j < k; j++ {
+			if strings.Contains(run.results[j], "panic") {
+				return true
+			}
+		}
+		return false
+	}
 	var verdicts, frozenVerdicts []string
 	everFailed := map[string]bool{} // ns/name that returned an analysis error
 	reachedBefore := map[int]map[string]bool{}
@@ -319,6 +327,8 @@ func histVerdicts(ops []histOp) []string {
 			}
 			verdicts = append(verdicts, fmt.Sprintf("%d|%s|%d|fresh:%s:%s|proj:%s:%s|sticky:%s|shared:%s|opening:%s|tohtml:%s|rep:%s",
 				k, res, len(out), fres, b01(fres == res && fout == out), pres, psame, sticky, strings.Join(shared, ","), strings.Join(opening, ","), tohtml, rep))
+		case (op.kind == "P" || op.kind == "C") && panickedBefore(k):
+			// what a set does after an API call has panicked is C08's business
 		case op.kind == "P" && run.results[k] != "badop":
 			// after any execution in the name space every Parse must fail
 			late := false
